@@ -40,6 +40,30 @@ Proof.
   - now rewrite firstn_all2 by lia.
 Qed.
 
+(* ... and so is the decision that the whole upload (resource fork included) has arrived *)
+Theorem upload_done_independent chunks : upload_done_chunks chunks = upload_done_bytes (concat chunks).
+Proof.
+  unfold upload_done_chunks, upload_done_bytes.
+  stage 16%nat chunks pre c1. stage 24%nat c1 h c2. stage 16%nat c2 ih c3.
+  pose proof (read_full_take (N.to_nat (size_of_forkhdr ih)) c3) as H2.
+  rewrite N2Nat.id in H2.
+  destruct (read_full (N.to_nat (size_of_forkhdr ih)) c3) as [[info c4]|]; rewrite H2; [|reflexivity].
+  stage 16%nat c4 dh c5.
+  pose proof (copy_n_written c5 (N.to_nat (size_of_forkhdr dh))) as H4.
+  destruct (copy_n (N.to_nat (size_of_forkhdr dh)) c5) as [[w c6] ok].
+  destruct H4 as (_ & Hrest & Hok).
+  unfold take_exact at 1.
+  assert (E : (size_of_forkhdr dh <=? len (concat c5)) = ok).
+  { rewrite Hok. unfold len. destruct (Nat.leb_spec (N.to_nat (size_of_forkhdr dh)) (List.length (concat c5))); lia. }
+  rewrite E. destruct ok; [|reflexivity]. cbn [andb].
+  destruct (three_forks h); [|reflexivity].
+  unfold dropN. rewrite <- (Hrest eq_refl).
+  stage 16%nat c6 rh c7.
+  pose proof (copy_n_written c7 (N.to_nat (size_of_forkhdr rh))) as H6.
+  destruct (copy_n (N.to_nat (size_of_forkhdr rh)) c7) as [[w2 c8] ok2]. destruct H6 as (_ & _ & Hok2).
+  rewrite Hok2. unfold len. destruct (Nat.leb_spec (N.to_nat (size_of_forkhdr rh)) (List.length (concat c7))); lia.
+Qed.
+
 (* control connection: handshake bytes and token sequence depend only on the byte string *)
 Theorem control_independent chunks hs rest out :
   read_full 12 chunks = Some (hs, rest) -> scans [] (concat rest) out ->
